@@ -2,7 +2,7 @@
    Result code per case: 0 = agrees with the model (both variants where a variant exists), 1 = agrees only with
    today's variant (_current), 2 = agrees only with the repaired variant, 3 = disagrees with the model. *)
 From Coq Require Import List Arith NArith ZArith Bool.
-From OG Require Import C05.Model C05.Trunc.
+From OG Require Import C05.Model C05.Trunc C05.ReadPath.
 Import ListNotations.
 
 Fixpoint list_eqb {A} (eqb : A -> A -> bool) (a b : list A) : bool :=
@@ -55,6 +55,8 @@ Inductive case :=
 | CConflict (old : list batch) (j : nat) (new : list batch) (applied : list batch)
 | CTrunc (fsz first last : N) (T : Z) (rs : list (Z * bool * list bool * list N * N * option N * bool))
 | CGroupT (stale lost : bool)
+| CGroupL (lost : bool)
+| CReadSel (health : bool) (master : nat) (online : list bool) (shard_pts : list nat) (sel : list nat)
 | CSend (fsz first last snp : N) (probes : list (N * bool)) (slots : list (N * option nat * Z * bool)).
 
 Definition dw_eqb (a : option dwrap) (b : option (N * list N * N * list N)) : bool :=
@@ -272,6 +274,19 @@ Definition classify (c : case) : nat :=
                                 optnat_eqb (fst r) f && Z.eqb (snd r) off && Bool.eqb (storage_term_ok true E snp i) tok
                               end) slots
       then 0 else 3
+  | CGroupL lost =>
+      (* scenario lagmaster: does the replica that answers after the master's store died lack the acknowledged overwrite? *)
+      let m := fun aware : bool =>
+        match run raft_ref (init (cfg_repaired 3 2)) lagmaster_trace with
+        | Some s => match (if aware then elect_caught_up s else elect_today s) with
+                    | Some (nm, _) => negb (match read s nm 1%N with Some v => Z.eqb v 11 | None => false end)
+                    | None => false
+                    end
+        | None => false
+        end in
+      variant (Bool.eqb (m false) lost) (Bool.eqb (m true) lost)
+  | CReadSel health master online shard_pts sel =>
+      if list_eqb Nat.eqb (read_shards health master (fun p => nth p online false) shard_pts) sel then 0 else 3
   | CGroupT stale lost =>
       variant (Bool.eqb (group_lost true (two_outage_forced tcfg_current stale)) lost)
               (Bool.eqb (group_lost true (two_outage_forced tcfg_repaired stale)) lost)
